@@ -1013,7 +1013,7 @@ func (p *Parser) parseInputValueDefinition() int {
 		return ast.InvalidRef
 	}
 
-	inputValueDefinition.Name = p.read().Literal
+	inputValueDefinition.Name = p.mustRead(keyword.IDENT).Literal
 	inputValueDefinition.Colon = p.mustRead(keyword.COLON).TextPosition
 	inputValueDefinition.Type = p.ParseType()
 	if p.peekEquals(keyword.EQUALS) {
